@@ -35,7 +35,12 @@ func ZZ_C12_edsIsolation() {
 		canary = &datadoghqv1alpha1.ExtendedDaemonSetSpecStrategyCanary{Duration: &metav1.Duration{Duration: 10 * time.Minute}}
 	}
 	xTpl := zzPickTpl("x.template")
-	x := zzEDS("ns1", "foo", xTpl, canary)
+	xName := "foo"
+	if !sameName && nondet.Bool("x.nameLongerThan63") {
+		// a valid object name that is not a valid label value
+		xName = "foo-0123456789-0123456789-0123456789-0123456789-0123456789-0123456789"
+	}
+	x := zzEDS("ns1", xName, xTpl, canary)
 	y := zzEDS(yNs, yName, zzPickTpl("y.template"), nil)
 	c := fakeapi.New()
 	// X: optionally an active replica set for template A
@@ -43,6 +48,7 @@ func ZZ_C12_edsIsolation() {
 	var xA *datadoghqv1alpha1.ExtendedDaemonSetReplicaSet
 	if xHasA {
 		xA = zzRS(x, "A", "foo-xa", nondet.Base().Add(-time.Hour))
+		xA.Labels[datadoghqv1alpha1.ExtendedDaemonSetNameLabelKey] = xName
 		zzCounters(xA, "x.rsA")
 		x.Status.ActiveReplicaSet = "foo-xa"
 		c.ERS = append(c.ERS, xA)
@@ -62,13 +68,13 @@ func ZZ_C12_edsIsolation() {
 	c.EDS = append(c.EDS, x, y)
 	yBefore := y.DeepCopy()
 
-	_, err := zzReconcile(zzReconciler(c), "ns1", "foo")
+	_, err := zzReconcile(zzReconciler(c), "ns1", xName)
 	nondet.Observe("error", err != nil)
 
 	for _, e := range c.Writes() {
 		switch e.Kind {
 		case "ExtendedDaemonSet":
-			nondet.Assert("C12.eds.writes-own-object", e.Namespace == "ns1" && e.Name == "foo")
+			nondet.Assert("C12.eds.writes-own-object", e.Namespace == "ns1" && e.Name == xName)
 		case "ExtendedDaemonSetReplicaSet":
 			rs := e.Obj.(*datadoghqv1alpha1.ExtendedDaemonSetReplicaSet)
 			owned := len(rs.OwnerReferences) == 1 && rs.OwnerReferences[0].UID == x.UID
@@ -90,7 +96,7 @@ func ZZ_C12_edsIsolation() {
 	yAfter := zzStoredEDS(c, yNs, yName)
 	nondet.Assert("C12.eds.foreign-eds-untouched", yAfter != nil && yAfter.Status.ActiveReplicaSet == yBefore.Status.ActiveReplicaSet && zzImage(&yAfter.Spec.Template) == zzImage(&yBefore.Spec.Template))
 	// X's status counts only X's own replica sets, and its active replica set is its own
-	xs := zzStoredEDS(c, "ns1", "foo")
+	xs := zzStoredEDS(c, "ns1", xName)
 	var own []*datadoghqv1alpha1.ExtendedDaemonSetReplicaSet
 	for _, s := range c.ERS {
 		if s.Namespace == "ns1" && len(s.OwnerReferences) == 1 && s.OwnerReferences[0].UID == x.UID {
@@ -125,6 +131,7 @@ func ZZ_C12_edsIsolation() {
 	xHasMatching := xHasA && xTpl == "A"
 	nondet.Assert("C12.eds.creates-own", (c.Count("create", "ExtendedDaemonSetReplicaSet") == 1) == !xHasMatching)
 	nondet.Fact("sameName", sameName)
+	nondet.Reach("C12.eds.long-name", xName != "foo" && len(ys) > 0)
 	nondet.Reach("C12.eds.same-name-foreign-rs", sameName && len(ys) > 0)
 	nondet.Reach("C12.eds.foreign-matches-template", len(ys) > 0 && !xHasMatching)
 }
